@@ -77,15 +77,15 @@ Theorem C04_unguarded_reader_refuted :
 Proof. exact MergeSafe.unguarded_reader_fails. Qed.
 Print Assumptions C04_unguarded_reader_refuted.
 
-(* 8. Puts that replace the active file against gets, for every schedule (Conc/RollLTS.v: the writer
-      appends, may create the next file and make it the active one, and only then publishes; a reader
+(* 8. Puts and deletes that replace the active file against gets, for every schedule (Conc/RollLTS.v: the writer
+      appends a record or a tombstone, may create the next file and make it the active one, and only then publishes; a reader
       opens a file it has not touched, and renews a mapping that does not cover the record): no reader
       finds a file missing or a record outside its mapping, every finished get holds the value of the
-      abstract map at its lookup, and every index entry points at an existing record. *)
+      abstract map at its lookup, and every index entry points at an existing put record (never at a tombstone). *)
 Theorem C04_rollover_vs_gets : forall es s, RollLTS.rrun true RollLTS.rinit es = Some s ->
   (forall t, RollLTS.rreaders s t <> RollLTS.GFailed) /\
   (forall t k v c, RollLTS.rreaders s t = RollLTS.GDone k v c -> v = c) /\
-  (forall k f p, RollLTS.ridx s k = Some (f, p) -> exists v, RollSafe.has (RollLTS.rfiles s) f p v).
+  (forall k f p, RollLTS.ridx s k = Some (f, p) -> exists v, RollSafe.has (RollLTS.rfiles s) f p (Some v)).
 Proof. exact RollSafe.rollover_vs_gets. Qed.
 Print Assumptions C04_rollover_vs_gets.
 
@@ -94,8 +94,8 @@ Print Assumptions C04_rollover_vs_gets.
 Theorem C04_writer_never_blocked : forall es s, RollLTS.rrun true RollLTS.rinit es = Some s ->
   match RollLTS.wstate s with
   | RollLTS.WIdle => forall k v, RollLTS.rstep true s (RollLTS.WAppend k v) <> None
-  | RollLTS.WAppended _ _ => RollLTS.rstep true s RollLTS.WRoll <> None /\ RollLTS.rstep true s RollLTS.WPublish <> None
-  | RollLTS.WDone => RollLTS.rstep true s RollLTS.WReturn <> None
+  | RollLTS.WAppended _ _ | RollLTS.WAppendedDel _ => RollLTS.rstep true s RollLTS.WRoll <> None /\ RollLTS.rstep true s RollLTS.WPublish <> None
+  | RollLTS.WDone _ => RollLTS.rstep true s RollLTS.WReturn <> None
   end.
 Proof. exact RollSafe.writer_never_blocked. Qed.
 Print Assumptions C04_writer_never_blocked.
